@@ -19,6 +19,7 @@ import concurrent.futures
 import glob
 import json
 import os
+import re
 import shutil
 import sys
 import time
@@ -154,11 +155,23 @@ def py_entry_ok(e):
 
 
 # ------------------------------------------------------------------------------------------------ native harness
+def reset_source():
+    """lrt/zz_reset.go: ResetState() zeroes every package-level variable the copied sema_llgo.go declares as `var name Type`
+    (semaOnce, semaMap / a table, notifyMap ...): the harness does not depend on how the per-address states are stored."""
+    src = open(os.path.join(REPO, SEMA_SRC)).read()
+    decls = re.findall(r"^var (\w+) ([^=\n]+)$", src, re.M)
+    body = "".join("\t{\n\t\tvar z %s\n\t\t%s = z\n\t}\n" % (ty.strip(), name) for name, ty in decls)
+    return ("// Code generated by checks/c11.py from the `var` declarations of sema_llgo.go. DO NOT EDIT.\npackage lrt\n\n"
+            "import (\n\t\"unsafe\"\n\n\tpsync \"%s/psync\"\n)\n\nvar _ unsafe.Pointer\nvar _ psync.Mutex\n\n"
+            "// ResetState: a fresh process (%d package-level variables back to their zero values).\n"
+            "func ResetState() {\n%s\tnanoNow = 0\n}\n" % (native.VN, len(decls), body))
+
+
 def build_native(ctx):
     if LAT not in native.IMPORT_MAP:
         native.IMPORT_MAP.insert(0, LAT)      # sema_llgo.go imports llgo's intrinsic-only sync/atomic: yielding stand-in
     mains = {"main.go": open(os.path.join(H, "main.go.txt")).read(),
-             "lrt/zz_access.go": open(os.path.join(H, "lrt_access.go.txt")).read(),
+             "lrt/zz_access.go": open(os.path.join(H, "lrt_access.go.txt")).read(), "lrt/zz_reset.go": reset_source(),
              "lval/zz_access.go": open(os.path.join(H, "lval_access.go.txt")).read(),
              "latomic/atomic.go": open(os.path.join(H, "standins", "latomic", "atomic.go")).read()}
     return native.make_native(ctx, [], {}, mains, other={SEMA_SRC: ("lrt", "lrt"), VALUE_SRC: ("lval", "lval")}, name="native-c11")
@@ -971,7 +984,7 @@ def build_layered(ctx):
         if m not in native.IMPORT_MAP:
             native.IMPORT_MAP.insert(0, m)
     rd = lambda *q: open(os.path.join(H, *q)).read()
-    mains = {"main.go": rd("syncmain.go.txt"), "lrt/zz_access.go": rd("lrt_access.go.txt"),
+    mains = {"main.go": rd("syncmain.go.txt"), "lrt/zz_access.go": rd("lrt_access.go.txt"), "lrt/zz_reset.go": reset_source(),
              "latomic/atomic.go": rd("standins", "latomic", "atomic.go"), "race/race.go": rd("standins", "race", "race.go"),
              "isync/zz_runtime.go": rd("isync_runtime.go.txt"), "gsync/zz_runtime.go": rd("gsync_runtime.go.txt")}
     other = {SEMA_SRC: ("lrt", "lrt"), os.path.join(GOSRC, "internal", "sync", "mutex.go"): ("isync", "sync")}
